@@ -39,17 +39,21 @@ class MarkAuto(Auto):
             return state
         if ev[1] == "set_mark":
             self.n_set += 1
-            return "S"
+            return "S0"
         if ev[1] == "line_at_offset":
             return "U"
+        if ev[1] == "advance" and state in ("S0", "S1"):
+            # S1: the marked token itself was consumed; S2: a further token was consumed, the mark is stale
+            return "S1" if state == "S0" else "S2"
         if ev[1] == "mark":
             self.n_get += 1
-            if state == "U":
+            if state in ("U", "S2"):
                 fn = where[1]
                 key = norm(fn.id)
                 if key not in self.viol:
                     chain = [short(self.eng.facts.inst[k]["def"]) for k in self.eng.stack] if self.eng else []
-                    self.viol[key] = (fn.loc(where[2]), chain)
+                    why = "no set_mark() happened on the current line" if state == "U" else "another token was consumed since set_mark() (stale mark)"
+                    self.viol[key] = (fn.loc(where[2]), chain, why)
         return state
 
 
@@ -76,10 +80,10 @@ def run_r1(ctx, rule):
             rule.bad("%s/unreached" % nid, "mark() call site in %s is not reachable from any API root (cannot be decided)" % short(nid), f.loc(bb), kind="unmodelled-idiom")
             continue
         if nid in auto.viol:
-            loc, chain = auto.viol[nid]
+            loc, chain, why = auto.viol[nid]
             rule.bad(
                 "%s/mark-unset" % nid,
-                "%s reads the mark although no set_mark() happened for the current token on some path from an API root" % short(nid),
+                "%s reads the mark although %s on some path from an API root" % (short(nid), why),
                 loc,
                 path=["call chain: " + " -> ".join(chain)],
             )
@@ -241,93 +245,118 @@ def token_fns(facts):
     return out
 
 
-# advance amounts that cannot reach the byte a look-ahead in the same function matched (frozen, with reason)
-NON_COVERING_ADVANCE = {
-    "core::str::error::Utf8Error::valid_up_to": "valid_up_to() <= length of the validated slice buf()[..offset], so the LF at `offset` is not consumed",
+class LfAuto(Auto):
+    """R3: (pending, consumed).  pending = where a byte matched as LF sits relative to the cursor:
+    ("num", k) exact offset, ("var", fn, local) = at the offset held by that variable; consumed = an
+    advance passed over it and no line_at_offset happened yet."""
+
+    name = "lf-count"
+
+    def __init__(self):
+        self.viol = {}
+        self.eng = None
+
+    def initial(self):
+        return (None, False)
+
+    def _flag(self, where, why):
+        fn = where[1]
+        key = norm(fn.id)
+        if key not in self.viol:
+            chain = [short(self.eng.facts.inst[k]["def"]) for k in self.eng.stack] if self.eng else []
+            self.viol[key] = (fn.loc(where[2]), chain, why)
+
+    def event(self, state, ev, where):
+        pending, consumed = state
+        if ev[0] == "narrow" and ev[1] == "look":
+            names = dict(ev[2][2])
+            if set(names) == {"Some"} and names["Some"] is not None and names["Some"][0] == "byte" and names["Some"][1] == (1 << 10):
+                tag = ev[3] if len(ev) > 3 else "look"
+                if "@" in tag:
+                    k = int(tag.split("@")[1])
+                    if k >= 1000:
+                        return (("var", where[1].id, k - 1000), consumed)
+                    return (("num", k), consumed)
+                return (("unk",), consumed)
+            return state
+        if ev[0] != "prim":
+            return state
+        name = ev[1]
+        if name == "line_at_offset":
+            return (None, False)
+        if name == "advance":
+            n = ev[2][1] if len(ev[2]) > 1 else TOP
+            if pending is None:
+                return state
+            if pending[0] == "num":
+                if n[0] == "i":
+                    if n[1] > pending[1]:
+                        return (None, True)
+                    return (("num", pending[1] - n[1]), consumed)
+                return (None, consumed)
+            if pending[0] == "var" and pending[1] == where[1].id:
+                t = where[1].term(where[2])
+                e = sym(where[1]).operand(t["args"][1]) if len(t.get("args", [])) > 1 else None
+                a = affine1(e) if e else None
+                if a and a[0] == pending[2]:
+                    if a[1] > 0:
+                        return (None, True)
+                    return (None, consumed)
+            return (None, consumed)
+        if name in ("give_up", "give_up_at") and consumed:
+            self._flag(where, "an error is reported after a line feed was consumed but not counted (wrong line)")
+        if name == "look" and consumed:
+            self._flag(where, "further input is examined after a line feed was consumed but not counted")
+            return (pending, False)
+        return state
+
+
+R3_EXEMPT = {
+    "flussab_aiger::token::remaining_file_content": "consumes to the end of the input; on success nothing can be reported afterwards, on failure it counts lines itself (store to LineReader.line)",
 }
 
 
-def _symof(label):
-    if "#" not in label:
-        return None
-    body = label.split("#", 1)[1].rstrip(")")
-    if ":call:" in body:
-        fnid, _, callee = body.partition(":call:")
-        return (fnid, "call", callee)
-    fnid, _, aff = body.rpartition(":")
-    if aff == "?" or "+" not in aff:
-        return (fnid, None, None)
-    v, _, d = aff.rpartition("+")
-    return (fnid, v, int(d))
-
-
-def _may_cover(adv_label, look_label):
-    """may advance(n) consume the byte looked at?  No only if both are var+const in the same function over
-    the same variable and n <= k."""
-    a, l = _symof(adv_label), _symof(look_label)
-    if a and l and a[0] == l[0] and a[1] == "call":
-        return a[2] not in NON_COVERING_ADVANCE
-    if a and l and a[0] == l[0] and a[1] is not None and a[1] == l[1] and a[1] != "call":
-        return a[2] > l[2]
-    return True
+def token_fns(facts):
+    out = []
+    for f in facts.fns.values():
+        if f.kind == "Closure" or f.crate == "ext":
+            continue
+        nid = norm(f.id)
+        if "::token::" in nid and f.crate in FORMAT_CRATES:
+            out.append(f)
+    return out
 
 
 def run_r3(ctx, rule):
     facts = ctx.facts
-    LFM = 1 << 10
-    n_lf = 0
+    n = 0
     for f in sorted(token_fns(facts), key=lambda x: x.id):
         nid = norm(f.id)
+        auto = LfAuto()
+        eng = Engine(facts, auto)
+        auto.eng = eng
         try:
             key = scan.root_key(facts, f.id)
-            args = tuple(TOP for _ in range(f.argc))
-            tr, eng = scan.behaviour(facts, key, args, sym_labels=True)
+            res = eng.summary(key, auto.initial(), tuple(TOP for _ in range(f.argc)))
         except (A.Recursion, A.Imprecise, A.F.FactError) as e:
-            rule.bad("%s/engine" % nid, "behaviour extraction failed: %r" % e, f.loc(), kind="unmodelled-idiom")
+            rule.bad("%s/engine" % nid, "analysis failed: %r" % e, f.loc(), kind="unmodelled-idiom")
             continue
-        # transition graph
-        succ = {}
-        for s, g, d in tr:
-            succ.setdefault(s, []).append((g, d))
-        # edges that match exactly LF
-        lf_edges = [(s, g, d) for s, g, d in tr if s.startswith("look@") and g == scan.guard_str((False, LFM))]
-        lf_edges = [e for e in lf_edges if norm(_symof(e[0])[0]) == nid or True]
-        if not lf_edges:
-            continue
-        n_lf += 1
-        # from d: is there a path to ret passing an advance node without a line_at_offset node?
         bad = None
-        for s, g, d in lf_edges:
-            st = [(d, False, False, (s, d))]
-            seen = set()
-            while st and bad is None:
-                node, adv, nl, path = st.pop()
-                if node.startswith("advance(") and _may_cover(node, s):
-                    adv = True
-                if node.startswith("line_at_offset("):
-                    nl = True
-                if (node, adv, nl) in seen:
-                    continue
-                seen.add((node, adv, nl))
-                if node.startswith("ret:") or node.startswith("give_up"):
-                    if adv and not nl and node.startswith("ret:"):
-                        bad = path
-                    continue
-                if node.startswith("look@") and adv:
-                    # a new token starts being examined: obligation must have been met by now
-                    if not nl:
-                        bad = path + (node,)
-                    continue
-                for g2, d2 in succ.get(node, []):
-                    st.append((d2, adv, nl, path + (d2,)))
-        what = "%s: every path that matches LF and advances also calls line_at_offset" % short(nid)
+        for av, st in res:
+            if st[1]:
+                bad = "returns after consuming a line feed without counting it"
+        if auto.viol:
+            k0 = sorted(auto.viol)[0]
+            bad = "%s (in %s, %s)" % (auto.viol[k0][2], short(k0), auto.viol[k0][0])
+        n += 1
+        what = "%s: a byte matched as LF is never advanced over without line_at_offset" % short(nid)
         if bad is None:
             rule.ok(what, f.loc())
         elif nid in R3_EXEMPT:
             rule.ok(what + " [exempt]", f.loc(), "exempt: " + R3_EXEMPT[nid])
         else:
-            rule.bad("%s/newline-not-counted" % nid, "%s consumes a line feed without line_at_offset: %s" % (short(nid), " -> ".join(bad)), f.loc())
-    rule.note("functions_matching_LF", n_lf)
+            rule.bad("%s/newline-not-counted" % nid, "%s %s" % (short(nid), bad), f.loc())
+    rule.note("token_functions", n)
 
 
 def run_r4(ctx, rule):
@@ -374,7 +403,7 @@ def run(ctx):
     run_r1(ctx, r1)
     r2 = ctx.rule("C08-R2", "line_start is never ahead of the cursor when an error can be raised or a token function returns", floor=11)
     run_r2(ctx, r2)
-    r3 = ctx.rule("C08-R3", "every token that matches a line feed and advances over it counts the line", floor=8)
+    r3 = ctx.rule("C08-R3", "every token that matches a line feed and advances over it counts the line (typestate, exact for offsets up to 3)", floor=60)
     run_r3(ctx, r3)
     r4 = ctx.rule("C08-R4", "errors are raised at the cursor or at the mark only; column = position - line_start + 1", floor=10)
     run_r4(ctx, r4)
